@@ -313,11 +313,14 @@ class MaterialFile(BaseMaterial):
                     self._k = arr[:, 1]
 
                 elif sub_data_type == 'tabulated nk':
-                    self._n_wavelength = arr[:, 0]
                     self._k_wavelength = arr[:, 0]
-                    self._n = arr[:, 1]
                     self._k = arr[:, 2]
-                    self._set_formula_type(sub_data_type)
+                    if self._n_formula is None:
+                        # a dispersion formula given in the same file takes
+                        # precedence over the tabulated index
+                        self._n_wavelength = arr[:, 0]
+                        self._n = arr[:, 1]
+                        self._set_formula_type(sub_data_type)
 
         # Parse reference info, if available
         try:
